@@ -11,6 +11,7 @@ import (
 	"regexp"
 	"strings"
 	"sync"
+	"syscall"
 	"time"
 )
 
@@ -22,6 +23,7 @@ type SolveResult struct {
 	Model   string
 	File    string
 	All     map[string]string // backend -> status (thorough)
+	Stage   int               // 0 syntactic, 1 short race, 2 portfolio
 }
 
 var reSym = regexp.MustCompile(`[^\s()]+`)
@@ -126,6 +128,14 @@ var macroSolver = 6
 // a core to itself (stage 2 races some twenty variants per obligation)
 var solverSem = make(chan struct{}, max(4, runtime.NumCPU()))
 
+// wallCap is the wall-clock limit that goes with a CPU-time limit of t seconds: generous, because the verdict must
+// not depend on what else the machine is doing (several checks at once, a busy host). It only stops a solver that
+// is starved of CPU altogether.
+func wallCap(t int) int { return 6*t + 10 }
+
+// runSolver runs one solver process under a CPU-time limit of timeoutS seconds (RLIMIT_CPU, set by the shell that
+// execs the solver) and the wall-clock cap above. A limit in CPU time makes "decided within the limit" a property
+// of the query and the solver, not of the load on the machine; ms is the CPU time the process used.
 func runSolver(ctx context.Context, sc solverCfg, file string, timeoutS int) (status, out string, ms int64) {
 	select {
 	case solverSem <- struct{}{}:
@@ -133,16 +143,27 @@ func runSolver(ctx context.Context, sc solverCfg, file string, timeoutS int) (st
 	case <-ctx.Done():
 		return "unknown", "cancelled", 0
 	}
-	args := sc.args(file, timeoutS)
-	cctx, cancel := context.WithTimeout(ctx, time.Duration(timeoutS+2)*time.Second)
+	wall := wallCap(timeoutS)
+	args := sc.args(file, wall)
+	cctx, cancel := context.WithTimeout(ctx, time.Duration(wall+2)*time.Second)
 	defer cancel()
-	cmd := exec.CommandContext(cctx, args[0], args[1:]...)
+	sh := fmt.Sprintf("ulimit -t %d; exec \"$0\" \"$@\"", timeoutS)
+	cmd := exec.CommandContext(cctx, "/bin/sh", append([]string{"-c", sh}, args...)...)
 	var buf bytes.Buffer
 	cmd.Stdout = &buf
 	cmd.Stderr = &buf
 	t0 := time.Now()
 	_ = cmd.Run()
 	ms = time.Since(t0).Milliseconds()
+	killedByLimit := false
+	if ps := cmd.ProcessState; ps != nil {
+		if cpu := (ps.UserTime() + ps.SystemTime()).Milliseconds(); cpu > 0 {
+			ms = cpu
+		}
+		if ws, ok := ps.Sys().(syscall.WaitStatus); ok && ws.Signaled() && (ws.Signal() == syscall.SIGXCPU || ws.Signal() == syscall.SIGKILL) && ctx.Err() == nil {
+			killedByLimit = true
+		}
+	}
 	out = buf.String()
 	first := ""
 	for _, ln := range strings.Split(out, "\n") {
@@ -158,7 +179,7 @@ func runSolver(ctx context.Context, sc solverCfg, file string, timeoutS int) (st
 	case "timeout":
 		status = "timeout"
 	default:
-		if cctx.Err() != nil {
+		if cctx.Err() != nil || killedByLimit {
 			status = "timeout"
 		} else if strings.Contains(out, "timeout") || strings.Contains(out, "interrupted") {
 			status = "timeout"
@@ -228,6 +249,7 @@ func (u *Universe) Solve(o *Obligation, dir string, timeoutS int, thorough bool)
 		if a.st == "unsat" || (a.st == "sat" && a.name == "z3-new") {
 			cancel1()
 			res.Status, res.Backend, res.Ms, res.Output = a.st, a.name, a.ms, a.out
+			res.Stage = 1
 			if a.st == "sat" {
 				res.Model = a.out
 			}
@@ -249,6 +271,10 @@ func (u *Universe) Solve(o *Obligation, dir string, timeoutS int, thorough bool)
 	}
 	cancel1()
 	_ = st
+	if u.stage1Only {
+		res.Status, res.Backend, res.Ms, res.Output, res.Stage = "unknown", "none", ms, out, 1
+		return res
+	}
 	// stage 2: race all back ends, plus sliced variants (dropping assumptions is sound: it can only lose proofs)
 	os.WriteFile(fc, []byte(u.smtText(o, true, true)), 0o644)
 	type variant struct {
@@ -360,7 +386,9 @@ func (u *Universe) Solve(o *Obligation, dir string, timeoutS int, thorough bool)
 				return res
 			}
 		} else if best.st != "unsat" && best.st != "sat" {
-			if a.st == "error" && best.st != "error" {
+			// (cvc5 rejects constant arrays over uninterpreted constants - a parse error there says nothing about
+			// the obligation and must not be reported as the solver's reason)
+			if a.st == "error" && best.st != "error" && !strings.HasPrefix(a.name, "cvc5") {
 				// keep first error output for diagnosis if nothing better
 				if best.name == "none" {
 					best = a
@@ -369,6 +397,7 @@ func (u *Universe) Solve(o *Obligation, dir string, timeoutS int, thorough bool)
 		}
 	}
 	res.Status, res.Backend, res.Ms, res.Output = best.st, best.name, best.ms, best.out
+	res.Stage = 2
 	if best.st == "sat" {
 		res.Model = best.out
 	}
